@@ -1,6 +1,7 @@
 package main
 
 import (
+	"io"
 	"math/big"
 	"reflect"
 	"sort"
@@ -72,7 +73,98 @@ type EthTx struct {
 	Ignored      *[32]byte `rlp:"-"`
 }
 
+// Self-referential types: through a nil pointer, a slice, a second struct, an array.
+type RList struct {
+	Val  uint64
+	Next *RList `rlp:"nil"`
+}
+
+type RTree struct {
+	Tag  []byte
+	Kids []RTree
+}
+
+type RA struct {
+	X uint8
+	B *RB `rlp:"nil"`
+}
+
+type RB struct {
+	Y []byte
+	A []RA
+}
+
+type RArr struct {
+	V   uint8
+	Sub [1][]RArr
+}
+
+// Sa1: a one-byte array followed by another field.
+type Sa1 struct {
+	A [1]byte
+	B uint8
+}
+
+// Sif: interface{}, big.Int by value, pointers to bool and string, plain uint as fields.
+type Sif struct {
+	A interface{}
+	B uint8
+	C big.Int
+	D *bool
+	E *string
+	F uint
+}
+
+type encWire struct{ V uint64 }
+
+// EncP codes itself (pointer receivers): as the one-field list [V].
+type EncP struct{ V uint64 }
+
+func (e *EncP) EncodeRLP(w io.Writer) error { return rlp.Encode(w, &encWire{e.V}) }
+func (e *EncP) DecodeRLP(s *rlp.Stream) error {
+	var t encWire
+	if err := s.Decode(&t); err != nil {
+		return err
+	}
+	e.V = t.V
+	return nil
+}
+
+// EncV codes itself with a value-receiver encoder.
+type EncV struct{ V uint64 }
+
+func (e EncV) EncodeRLP(w io.Writer) error { return rlp.Encode(w, &encWire{e.V}) }
+func (e *EncV) DecodeRLP(s *rlp.Stream) error {
+	var t encWire
+	if err := s.Decode(&t); err != nil {
+		return err
+	}
+	e.V = t.V
+	return nil
+}
+
+type Senc struct {
+	A EncP
+	B *EncP
+	C EncV
+}
+
+// noByValue: types whose values cannot be encoded unless addressable (documented:
+// "unadressable value ..., EncodeRLP is pointer method").
+var noByValue = map[string]bool{"encp": true, "Senc": true}
+
 var catalogue = map[string]reflect.Type{
+	"RList": reflect.TypeOf(RList{}),
+	"RTree": reflect.TypeOf(RTree{}),
+	"RA":    reflect.TypeOf(RA{}),
+	"RB":    reflect.TypeOf(RB{}),
+	"RArr":  reflect.TypeOf(RArr{}),
+	"Sa1":   reflect.TypeOf(Sa1{}),
+	"Sif":   reflect.TypeOf(Sif{}),
+	"encp":  reflect.TypeOf(EncP{}),
+	"pencp": reflect.TypeOf((*EncP)(nil)),
+	"encv":  reflect.TypeOf(EncV{}),
+	"Senc":  reflect.TypeOf(Senc{}),
 	"u8":     reflect.TypeOf(uint8(0)),
 	"u16":    reflect.TypeOf(uint16(0)),
 	"u32":    reflect.TypeOf(uint32(0)),
